@@ -81,3 +81,7 @@ where
     let buf = lexical_core::write_with_options::<_, FORMAT>(n, &mut dst, &options);
     writer.write_all(buf)
 }
+
+#[cfg(kani)]
+#[path = "/verif/harness/sam/writer_num.rs"]
+mod verif_kani;
